@@ -1272,6 +1272,10 @@ def _parse_Hamiltonian(H: Hamiltonian, n_dt: int, H_str: str) -> Tuple[Sequence[
     # Unzip the nested lists into operators and coefficient arrays. Since
     # identifiers are optional, we need to perform a check if they were given.
     opers, *args = zip_longest(*H, fillvalue=None)
+    if not args:
+        raise TypeError(f'Expected the items of {H_str} to be lists of an operator, coefficients, '
+                        + 'and optionally an identifier!')
+
     if len(args) == 1:
         coeffs = args[0]
         identifiers = None
